@@ -120,12 +120,15 @@ let zint s = z_of_int (int_of_string s)
 let nint s = n_of_int (int_of_string s)
 let act_str = function ASkip -> "skip" | ACreate -> "create" | AUpdate -> "update" | ADelete -> "delete"
 let err_str = function E_NotDir -> "ENOTDIR" | E_IsDir -> "EISDIR" | E_NoEnt -> "ENOENT"
+let dirstat : (string, (n * z)) Hashtbl.t = Hashtbl.create 64
 let fs_of_entries (ents : string) : (n list -> node option) * n list list =
   let items = if ents = "-" then [] else String.split_on_char ',' ents in
   let tbl = Hashtbl.create 64 in
   let order = ref [] in
+  Hashtbl.reset dirstat;
   List.iter (fun it -> match String.split_on_char ':' it with
     | ["d"; p] -> Hashtbl.replace tbl p Dir; order := path_of_str p :: !order
+    | ["d"; p; sz; mt] -> Hashtbl.replace tbl p Dir; Hashtbl.replace dirstat p (nint sz, zint mt); order := path_of_str p :: !order
     | ["f"; p; sz; mt; c] -> Hashtbl.replace tbl p (File (nint c, nint sz, zint mt)); order := path_of_str p :: !order
     | _ -> failwith "dst entry") items;
   ((fun p -> Hashtbl.find_opt tbl (str_of_path p)), List.rev !order)
@@ -233,7 +236,8 @@ let handle (toks : string list) : string =
       let ex = if extra = "-" then [] else List.map path_of_str (String.split_on_char ',' extra) in
       let u = List.fold_left (fun acc p -> if List.mem p acc then acc else acc @ [p]) [] (dorder @ List.map (fun e -> e.se_path) src @ ex) in
       let refuse d n t = Z.ltb (Z.mul t n) (Z.mul (z_of_int 100) d) in
-      let r = run refuse c (zint now) u src dst in
+      let ds p = (match Hashtbl.find_opt dirstat (str_of_path p) with Some x -> x | None -> (n_of_int 4096, Z0)) in
+      let r = run refuse ds c (zint now) u src dst in
       Printf.sprintf "refused=%d exit=%d errs=%s evs=%s dst=%s"
         (if r.r_refused then 1 else 0) (int_of_z (exit_status c r))
         (if r.r_errors = [] then "-" else String.concat "," (List.map (fun ((p, a), e) -> Printf.sprintf "%s:%s:%s" (str_of_path p) (act_str a) (err_str e)) r.r_errors))
